@@ -36,7 +36,7 @@ def gen_cases(tier, seed):
         nnuc = int(rng.integers(1, 6))
         nuc = [list(shells[k % nsh]["c"]) if k < nsh and rng.random() < 0.7 else [float(v) for v in rng.normal(size=3) * 1.5] for k in range(nnuc)]
         Z = [float(v) for v in np.exp(rng.uniform(np.log(0.1), np.log(100), size=nnuc)) * rng.choice([-1.0, 1.0], size=nnuc, p=[0.35, 0.65])]
-        npts = int(rng.integers(1, 31)) if i % 5 else int(rng.integers(1, 6))
+        npts = bases.npts_pick(rng, 31) if i % 5 else int(rng.integers(1, 6))
         pts = []
         pcl = set()
         for k in range(npts):
@@ -67,7 +67,7 @@ def gen_cases(tier, seed):
         ntot = sum(bases.nfunc(s) for s in shells)
         T, tcls = bases.rand_transform(rng, ntot, ["none", "orth", "fewer", "more", "general", "none"][i % 6])
         norb = ntot if T is None else len(T)
-        dm, dcls = bases.rand_sym(rng, norb, ["psd", "indef", "psd-lowrank", "diag"][i % 4])
+        dm, dcls = bases.rand_sym(rng, norb, ["psd", "indef", "psd-lowrank", "diag", "diag-indef", "psd", "blockdiag"][i % 7])
         # thresholds
         P, Nn = np.array(pts), np.array(nuc)
         d = np.sqrt(((P[:, None, :] - Nn[None, :, :]) ** 2).sum(axis=2))
